@@ -1371,13 +1371,14 @@ fn main() {
 		let n_scen = if args.thorough { 2500 } else { 170 } * args.scale as usize;
 		let mut class_hist: BTreeMap<String, u64> = BTreeMap::new();
 		let only: Option<usize> = std::env::var("VERIF_ONLY").ok().and_then(|v| v.parse().ok());
+		let mut buffered: Vec<String> = vec![]; // the LOSS reports (crash variant) are listed before the order violations
 		for sc in 0..n_scen {
 			let mut sub = Rng::new(rng.next());
 			if only.map(|o| o != sc).unwrap_or(false) { continue; }
 			match guarded(std::panic::AssertUnwindSafe(|| multi_scenario(&mut sub, sc, args.thorough))) {
 				Ok(Ok(out)) => {
 					for (k, (op, res, class, nt)) in out.lines.into_iter().enumerate() { if res == "-" { rec.directive(&op); } else { rec.case(&format!("{} @s{}.{}", op, sc, k), &res, &class, nt); } }
-					for o in out.oracle { rec.oracle_fail(o); }
+					for o in out.oracle { buffered.push(o); }
 					for c in out.classes { *class_hist.entry(c).or_insert(0) += 1; }
 				},
 				Ok(Err(e)) if e.starts_with("PANIC ") => rec.oracle_fail(format!("multi scenario {} (seed {}) panicked: {}", sc, args.seed, e.chars().take(300).collect::<String>())),
@@ -1385,6 +1386,8 @@ fn main() {
 				Err(p) => rec.oracle_fail(format!("multi scenario {} (seed {}) panicked: {}", sc, args.seed, p.chars().take(300).collect::<String>())),
 			}
 		}
+		buffered.sort_by_key(|o| !o.contains("FAILED BACKWARDS"));
+		for o in buffered { rec.oracle_fail(o); }
 		for (k, v) in class_hist { *rec.classes.entry(k).or_insert(0) += v; }
 		rec.notes.insert("rule".into(), "4 real nodes A-B, E-B (two inbound edges) and B-C (one outbound edge); 2-3 forwarded HTLCs committed on all links, the first two over DIFFERENT inbound edges; B persists asynchronously (every update InProgress), C claims all of them at random points; every B-C message delivered separately, monitor-update completions at B in random order with one inbound edge completing readily and the other rarely, inbound-edge messages at random points; per revoke_and_ack of C one case (handed / parked), per inbound-edge completion that runs a completion action while updates are parked one case (flies / stays), compared with the GENERATED blocker-map functions; oracle: no downstream CommitmentSecret update at chain::Watch before the preimage of every fulfilled HTLC is durable in its own inbound edge's monitor".into());
 	} else if args.model == "c02hop" {
